@@ -122,14 +122,15 @@ func c15LockCreateError(c *Ctx, rt *core.Runtime, pr *c15Pair, n int) {
 	}
 	_, lockErr3 := os.Stat(filepath.Join(psdir, "_lock"))
 	want := append(got, fmt.Sprint(lockErr3 == nil), fmt.Sprint(holders))
-	// In LTS terms: E1 = Lock() with a failing create (returns nil, handler registered, no file); the
-	// caller then fails on "read only mode" and Unlock()s = the process leaves without touching a file (K1);
+	// In LTS terms: E1 = Lock() with a failing create (under the regenerated fact c15LockCreateErrorIgnored: the
+	// error is returned and nothing is registered; before the repair: returns nil, handler registered, no file,
+	// the caller then fails on "read only mode" and Unlock()s); the process leaves without touching a file (K1);
 	// A2,G2 = the second mrp; S1 = the first one dies through the handler path; A3 = the third.
 	_ = want
 	if rep := c.Drv.Ask("C15.lts", "E1,K1,A2,G2,S1,A3"); rep != "bad-op" {
 		f := splitFields(rep)
 		// reply: verdicts of the six actions, lockFile, holders, registered
-		if len(f) < 8 || f[2] != got[1] || f[5] != got[3] || f[6] != fmt.Sprint(lockErr3 == nil) || f[7] != fmt.Sprint(holders) {
+		if len(f) < 8 || f[0] != e1 || f[2] != got[1] || f[5] != got[3] || f[6] != fmt.Sprint(lockErr3 == nil) || f[7] != fmt.Sprint(holders) {
 			r.violate(Violation{Kind: "correspondence", Key: "C15:lock-lts-mismatch",
 				What:  "history E1,K1,A2,G2,S1,A3 (an attach whose lock-file create fails and which then gives up, a second attach, the death of the first process, a third attach) on a real pipestance differs from the Lean lock LTS",
 				Input: "E1,K1,A2,G2,S1,A3", Impl: append(got, fmt.Sprint(lockErr3 == nil), fmt.Sprint(holders)), Model: rep,
@@ -165,6 +166,9 @@ func splitFields(s string) []string {
 func c15StartRace(c *Ctx, rt *core.Runtime, pr *c15Pair, trials int) {
 	r := c.Res
 	for t := 0; t < trials; t++ {
+		// every third trial the second starter is given an invocation that does not compile: it fails
+		// BEFORE it reaches Lock() (parse / compile / call-graph error), not with PipestanceLockedError
+		badLoser := t%3 == 2
 		psdir := filepath.Join(c.Scratch, fmt.Sprintf("sr%06d", t))
 		var wg sync.WaitGroup
 		start := make(chan struct{})
@@ -178,7 +182,11 @@ func c15StartRace(c *Ctx, rt *core.Runtime, pr *c15Pair, trials int) {
 			go func(i int) {
 				defer wg.Done()
 				<-start
-				ps, err := rt.InvokePipeline(pr.a.inv, filepath.Join(pr.a.dir, "invocation.mro"), "ps", psdir,
+				inv := pr.a.inv
+				if badLoser && i == 1 {
+					inv += "\ncall NO_SUCH_PIPELINE_AT_ALL(\n    x = 1,\n)\n"
+				}
+				ps, err := rt.InvokePipeline(inv, filepath.Join(pr.a.dir, "invocation.mro"), "ps", psdir,
 					[]string{pr.a.dir}, "verif", nil, nil)
 				out[i] = res{ps, err}
 			}(i)
@@ -204,7 +212,11 @@ func c15StartRace(c *Ctx, rt *core.Runtime, pr *c15Pair, trials int) {
 				}
 			}
 		}
-		r.hist(fmt.Sprintf("start-race:%s/%s", kinds[0], kinds[1]))
+		if badLoser {
+			r.hist(fmt.Sprintf("start-race(second starter does not compile):%s/%s", kinds[0], kinds[1]))
+		} else {
+			r.hist(fmt.Sprintf("start-race:%s/%s", kinds[0], kinds[1]))
+		}
 		r.count(fmt.Sprintf("startrace\x00%d", t), true)
 		input := map[string]interface{}{"history": "two Runtime.InvokePipeline calls on the same fresh pipestance directory, released together", "program": pr.a.text, "outcomes": kinds}
 		if winners > 1 {
@@ -221,8 +233,8 @@ func c15StartRace(c *Ctx, rt *core.Runtime, pr *c15Pair, trials int) {
 			}
 			if missing != "" {
 				r.violate(Violation{Kind: "property", Key: "C15:refused-start-deleted-running-pipestance",
-					What: "a start that was refused because another mrp holds the pipestance removed files of the RUNNING pipestance (missing after both returned:" + missing +
-						"): InvokePipeline runs os.RemoveAll(pipestancePath) on every instantiation error, also on PipestanceLockedError",
+					What: "a start that failed (" + kinds[0] + "/" + kinds[1] + ") while another mrp holds the pipestance removed files of the RUNNING pipestance (missing after both returned:" + missing +
+						"): InvokePipeline runs os.RemoveAll(pipestancePath) on instantiation errors of a call that does not own the pipestance",
 					Input: input, Impl: "missing:" + missing, Expect: "a refused start changes nothing", Broken: "theorem Props.C15.lts_refused_attach_changes_nothing (start)"})
 			}
 		}
@@ -236,6 +248,19 @@ func c15StartRace(c *Ctx, rt *core.Runtime, pr *c15Pair, trials int) {
 						What:  "history T1,G1,T2 (two concurrent starts, the second refused with PipestanceLockedError) on a real pipestance differs from the Lean lock LTS (under the regenerated fact c15RefusedStartRemovesDir)",
 						Input: "T1,G1,T2", Impl: []string{"1", "1", "0", fmt.Sprint(lerr == nil), "1"}, Model: rep,
 						Broken: "correspondence C15.lts (Martian.LockLTS.step, start)"})
+				}
+			}
+		}
+		if winners == 1 && badLoser && (kinds[0] == "refused:other" || kinds[1] == "refused:other") {
+			// a start that fails before Lock(): Act.startFail
+			_, lerr := os.Stat(filepath.Join(psdir, "_lock"))
+			if rep := c.Drv.Ask("C15.lts", "T1,G1,F2"); rep != "bad-op" {
+				f := splitFields(rep)
+				if len(f) < 5 || f[0] != "1" || f[2] != "0" || f[3] != fmt.Sprint(lerr == nil) || f[4] != "1" {
+					r.violate(Violation{Kind: "correspondence", Key: "C15:lock-lts-mismatch",
+						What:  "history T1,G1,F2 (two concurrent starts, the second fails before Lock() because its source does not compile) on a real pipestance differs from the Lean lock LTS (under the regenerated fact c15RefusedStartRemovesDir)",
+						Input: "T1,G1,F2", Impl: []string{"1", "1", "0", fmt.Sprint(lerr == nil), "1"}, Model: rep,
+						Broken: "correspondence C15.lts (Martian.LockLTS.step, startFail)"})
 				}
 			}
 		}
